@@ -248,6 +248,12 @@ def check(ctx):
             ctx.violation('C16.R4', BER, node, Model.qual(g),
                           '%s is converted to a number on a path that never compared the number of octets present: an encoding cut inside the length octets is decoded with a wrong '
                           'length (MissingDataError with a wrong expected length, or a value) instead of the out-of-data error' % sl, stmt='unchecked ' + sl)
+    dl_ = model.func(BER, 'decode_length')
+    n_ok_, n_und_, bad_, und_ = excmap.evaluate_decode_length(dl_)
+    ctx.instance('C16.R4', 'decode_length on short, minimal and non-minimal long forms and all their prefixes: %d cases evaluated, %d undecided' % (n_ok_, n_und_),
+                 'VIOLATION' if bad_ else ('ok' if n_ok_ else 'undecided'), und_ or '', nontrivial=n_ok_ > 0, node=dl_, file=BER)
+    if bad_:
+        ctx.violation('C16.R4', BER, dl_, Model.qual(dl_), bad_ + ': a truncated encoding is not reported with the out-of-data error at this point', stmt='decode_length evaluation')
     # missing-data test (same rule as C08.R5)
     from .C08 import decode_length_missing_data
     ok, why, _n = decode_length_missing_data(model)
